@@ -1,6 +1,7 @@
 #!/bin/bash
 # tools/try_seed.sh <seed-dir-name> <ID> [<ID>...]   apply seeded/<name>/patch.diff to /repo, run the quick checks, undo.
 set -u
+export VCHECK_EVIDENCE_DIR=/tmp/vcheck-trial-evidence   # never overwrite /verif/evidence from a broken tree
 NAME="$1"; shift
 PATCH="/verif/seeded/$NAME/patch.diff"
 cd /repo || exit 2
